@@ -66,6 +66,7 @@ impl Handler for NoWindowGlobalHandler {
     if_chain! {
       if let Expr::Ident(ident) = &expr.obj;
       if ident.sym() == "window";
+      if ident.ctxt() == ctx.unresolved_ctxt();
       if ctx.scope().is_global(&ident.inner.to_id());
       then {
         self.add_diagnostic(ctx, ident.range());
@@ -78,6 +79,7 @@ impl Handler for NoWindowGlobalHandler {
     if_chain! {
       if let Expr::Ident(ident) = &expr.expr;
       if ident.sym() == "window";
+      if ident.ctxt() == ctx.unresolved_ctxt();
       if ctx.scope().is_global(&ident.inner.to_id());
       then {
         self.add_diagnostic(ctx, ident.range());
